@@ -206,6 +206,18 @@ impl Check for C07 {
             })
             .collect();
         plan.sort_by_key(|n| n.before_op);
+        // near-miss frames tied to exchanges in flight (delivered right after the k-th Sync received /
+        // Delay_Req sent on a port, carrying its sequence id)
+        let n_mimic = ch.choose(S_NOISE, 3) as usize;
+        let mimics: Vec<Mimic> = (0..n_mimic)
+            .map(|_| Mimic {
+                port: ch.choose(S_NOISE, 3) as usize,
+                kind: ch.choose(S_NOISE, 4) as u8,
+                countdown: ch.choose(S_NOISE, 8) as u32,
+                src_variant: ch.choose(S_NOISE, 4) as u8,
+                fired: false,
+            })
+            .collect();
         let cfg = DriverCfg { wild_timers: false, runtime_changes: true, depth, host_faults: true, recording_filter: false, max_ports: 3 };
         // ---- world A
         let mut a = Driver::new(ch, cfg.clone());
@@ -232,6 +244,7 @@ impl Check for C07 {
         let _ = chb.range(S_NOISE, 1, 8); // keep stream positions aligned with A's chooser (unused)
         let mut b = Driver::new(&mut chb, cfg);
         force_debuggable(&mut b);
+        b.w.mimics = mimics.iter().map(|m| Mimic { port: m.port % b.nports(), ..m.clone() }).collect();
         let n_ops_b = chb.range(S_WORK, depth / 4, depth) as usize + 6;
         let mut out = RunOutcome::default();
         let mut injected: Vec<String> = Vec::new();
@@ -312,6 +325,12 @@ impl Check for C07 {
         out.states = wa.states;
         for (k, v) in wa.probes {
             out.probe_n(&k, v);
+        }
+        for (k, v) in &wb.faults {
+            if k.starts_with("noise.mimic_") {
+                *out.faults.entry(k.clone()).or_insert(0) += *v;
+                injected.push(format!("during the history: {} x{}", k, v));
+            }
         }
         for v in wa.violations.into_iter().chain(wb.violations.into_iter()) {
             if v.property != "C07" {
